@@ -11,6 +11,9 @@ FIRST = {
     "C12-a3": "caught by C01/C07 only", "C09-a3": "missed (`unsafe fn` exemption too wide)", "C10-a1": "missed", "C10-a2": "missed", "C10-a3": "INCONCLUSIVE only",
     "C06-a1": "INCONCLUSIVE only", "C06-a3": "caught by C14/C15/C21/C22 only", "C14-a3": "caught by C12/C20 only", "C18-a1": "missed", "C18-a2": "INCONCLUSIVE only", "C18-a3": "missed",
     "C16-a1": "caught by C23/C24 only", "C16-a3": "caught by C17 only",
+    "C05-a1": "caught (NOT ESTABLISHED: LinkedHashSet::insert gone)", "C05-a2": "missed", "C05-a3": "caught by C01/C02/C12 only",
+    "C03-a1": "caught by C01/C04/C10 only (NOT ESTABLISHED)", "C03-a2": "caught by C14/C16/C17 only",
+    "C13-a2": "missed", "C13-a3": "missed", "C15-a2": "caught by C01/C07 only", "C11-a1": "caught by C01/C07 only", "C11-a3": "caught by C14/C15/C21/C22 only",
 }
 for d in sorted(os.listdir(os.path.join(ROOT, "seeded"))):
     p = os.path.join(ROOT, "seeded", d)
